@@ -133,9 +133,19 @@ def oracle(run, reqs):
         raise Violation('stepping_task_not_released', state=str(p.state))
 
 
-def _harness(prog, specs):
+def _harness(prog, specs, restored=False):
     reqs = [Req(w, pos, ACTS[a], val, txt) for (w, pos, a, val, txt) in specs]
-    run = sched.Run(programs.program(prog), reqs)
+    make = None
+    if restored:
+        # the schedule is applied to a process restored from a checkpoint taken right after creation
+        def make(loop):
+            import copy
+            original = programs.program(prog)(loop=loop)
+            bundle = copy.deepcopy(plumpy.Bundle(original))
+            original.kill('abandoned')
+            return bundle.unbundle(plumpy.LoadSaveContext(loop=loop))
+        NOTES.witness('restored_process')
+    run = sched.Run(programs.program(prog), reqs, make=make)
     try:
         run.go()
         oracle(run, reqs)
@@ -164,11 +174,11 @@ def _pos_ok(w, pos):
         assume(0 <= pos <= 2)
 
 
-def sched1(prog: int, w0: int, p0: int, a0: int, v0: int, t0: str):
+def sched1(prog: int, w0: int, p0: int, a0: int, v0: int, t0: str, restored: bool):
     assume(len(t0) <= 2)
     w = pick(w0, NWHERE)
     _pos_ok(w, p0)
-    _harness(pick(prog, programs.N_PROGRAMS), [(w, p0, pick(a0, NACT), v0, t0)])
+    _harness(pick(prog, programs.N_PROGRAMS), [(w, p0, pick(a0, NACT), v0, t0)], restored)
 
 
 def sched2(prog: int, w0: int, p0: int, a0: int, v0: int, t0: str, w1: int, p1: int, a1: int, v1: int, t1: str):
@@ -216,7 +226,7 @@ def shards(tier):
 
 
 BOUNDS = {
-    'quick': dict(requests='K = 2 in gaps (at least one kill or future().cancel()); K = 1 kill/cancel from inside a listener notification',
+    'quick': dict(requests='K = 2 in gaps (at least one kill or future().cancel()); K = 1 kill/cancel from inside a listener notification, on a fresh process and on one restored from a checkpoint',
                   actions=[sched.ACT_NAMES[a] for a in ACTS], positions=f'gaps 0..{NPOS}; listener notification occurrence 0..2', programs='P0..P10',
                   data='kill text str len <= 2 (symbolic), resume value int'),
     'thorough': dict(requests='K = 2 with gap or listener placement for each; K = 3 in gaps', actions=[sched.ACT_NAMES[a] for a in ACTS],
@@ -228,6 +238,6 @@ SOLVER_ROLE = 'selector role for placements/actions; data role for the kill text
 EXPLANATION = 'kill is never lost / never raises / reports truthfully / text recorded; future().cancel() == kill; final probing kill from every live end configuration'
 ASSUMPTIONS = ['environment policy at idle ticks: play a paused process, resume a waiting one / complete its awaited future',
                'a kill issued from inside a listener notification (mid-transition) may let at most the one step that is being entered run']
-REQUIRED_WITNESSES = ['future_cancel_killed', 'kill_during_step', 'kill_from_listener', 'kill_while_paused', 'kill_while_waiting', 'kill_returned_future']
+REQUIRED_WITNESSES = ['restored_process', 'future_cancel_killed', 'kill_during_step', 'kill_from_listener', 'kill_while_paused', 'kill_while_waiting', 'kill_returned_future']
 LEVEL_TEXT = ('bounded exhaustive symbolic exploration of schedules containing a kill (or future cancel) against every other control request: '
               'kill never raises, the process ends KILLED before any further step starts, returned value/future truthful, text recorded, and no live end configuration is unkillable')
